@@ -66,6 +66,19 @@ var lintErrors = []string{
 	`set req.http.X-E = std.itoa(req.http.X-A) std.itoa(0, 1, 2);`,
 	`set var.undeclared = 1;`,
 	`set req.http.X-E = regsub(req.http.X-A);`,
+	`error;`,
+	`error 999 "a" "b";`,
+	`error var.i;`,
+	`synthetic "x";`,
+	`restart;`,
+	`set req.http.X-E = if(req.http.X-A, "a", 1);`,
+	`unset req.http.X-E:k;`,
+	`add req.http.X-E = 1;`,
+	`call vcl_recv;`,
+	`goto nowhere;`,
+	`set req.http.X-E = req.http.X-A ~ "(";`,
+	`set req.http.X-E = regsub(req.http.X-A, "(", "");`,
+	`return(bogus);`,
 }
 
 var lintConds = []string{`req.http.X-A == "1"`, `req.http.X-B`, `var.i > 3`, `!req.http.X-C`, `req.http.X-A ~ "^a"`, `req.http.X-E == some.undefined.cond`, `var.b && req.http.X-B`}
